@@ -109,7 +109,26 @@ def gen_statv_formats():
     d = fn.args.defaults
     if len(d) != 1 or not isinstance(d[0], ast.Constant):
         raise Untranslatable("GeckoAsyncStructure.get retry_count default is not a literal")
+    # GeckoStructure.retry_request: does the start of a transfer reset the assembly state (which lives on the structure)?
+    tree3 = T.parse("driver/spastruct.py")
+    rr = find_function(tree3, "GeckoStructure.retry_request")
+    resets = {"_next_expected": False, "_status_block_segments": False}
+    seen_send = False
+    for st in rr.body:
+        if any(isinstance(n, ast.Call) and (_dotted(n.func) or "").endswith("queue_send") for n in ast.walk(st)):
+            seen_send = True
+        if isinstance(st, ast.Assign) and len(st.targets) == 1 and not seen_send:
+            t = ast.unparse(st.targets[0])
+            v = ast.unparse(st.value)
+            if t == "self._next_expected" and v == "0":
+                resets["_next_expected"] = True
+            if t == "self._status_block_segments" and v == "[]":
+                resets["_status_block_segments"] = True
     out = [T.HEADER, "namespace GeckoModel.Generated\n",
+           "/-- GeckoStructure.retry_request assigns `self._next_expected = 0` before queueing the request -/\n"
+           f"def syncRequestResetsNext : Bool := {'true' if resets['_next_expected'] else 'false'}",
+           "/-- GeckoStructure.retry_request assigns `self._status_block_segments = []` before queueing the request -/\n"
+           f"def syncRequestResetsSegments : Bool := {'true' if resets['_status_block_segments'] else 'false'}",
            f'def statuRequestFormat : String := {T.lstr(vals.get("REQUEST_FORMAT", "?"))}',
            f'def statvResponseFormat : String := {T.lstr(vals.get("RESPONSE_FORMAT", "?"))}',
            f"/-- default `retry_count` of GeckoAsyncStructure.get -/\ndef structGetRetryDefault : Nat := {d[0].value}",
